@@ -947,18 +947,18 @@ static const yytype_int16 yyrline[] =
      475,   480,   481,   487,   490,   506,   515,   557,   558,   563,
      580,   594,   608,   622,   640,   641,   647,   646,   663,   662,
      683,   682,   707,   713,   773,   774,   775,   776,   777,   778,
-     784,   805,   836,   841,   858,   863,   883,   884,   898,   899,
-     900,   901,   902,   906,   907,   921,   925,  1021,  1069,  1130,
-    1175,  1176,  1180,  1215,  1268,  1323,  1354,  1361,  1368,  1381,
-    1392,  1403,  1414,  1425,  1436,  1447,  1458,  1473,  1489,  1501,
-    1576,  1614,  1518,  1743,  1766,  1778,  1806,  1825,  1848,  1896,
-    1903,  1910,  1909,  1956,  1955,  2006,  2014,  2022,  2030,  2038,
-    2046,  2054,  2058,  2066,  2067,  2092,  2112,  2140,  2214,  2246,
-    2264,  2275,  2318,  2334,  2354,  2364,  2363,  2372,  2386,  2387,
-    2392,  2402,  2417,  2416,  2429,  2430,  2435,  2468,  2493,  2549,
-    2556,  2562,  2568,  2578,  2582,  2590,  2602,  2616,  2623,  2630,
-    2655,  2667,  2679,  2691,  2706,  2718,  2733,  2782,  2803,  2838,
-    2873,  2907,  2932,  2949,  2959,  2969,  2979,  2989,  3009,  3029
+     784,   805,   836,   844,   861,   869,   889,   890,   904,   905,
+     906,   907,   908,   912,   913,   927,   931,  1027,  1075,  1136,
+    1181,  1182,  1186,  1221,  1274,  1329,  1360,  1367,  1374,  1387,
+    1398,  1409,  1420,  1431,  1442,  1453,  1464,  1479,  1495,  1507,
+    1582,  1620,  1524,  1749,  1772,  1784,  1812,  1831,  1854,  1902,
+    1909,  1916,  1915,  1962,  1961,  2012,  2020,  2028,  2036,  2044,
+    2052,  2060,  2064,  2072,  2073,  2098,  2118,  2146,  2220,  2252,
+    2270,  2281,  2324,  2340,  2360,  2370,  2369,  2378,  2392,  2393,
+    2398,  2408,  2423,  2422,  2435,  2436,  2441,  2474,  2499,  2555,
+    2562,  2568,  2574,  2584,  2588,  2596,  2608,  2622,  2629,  2636,
+    2661,  2673,  2685,  2697,  2712,  2724,  2739,  2788,  2809,  2844,
+    2879,  2913,  2938,  2955,  2965,  2975,  2985,  2995,  3015,  3035
 };
 #endif
 
@@ -2732,12 +2732,15 @@ yyreduce:
       {
         (yyval.modifier).flags = STRING_FLAGS_BASE64;
         (yyval.modifier).alphabet = ss_new(DEFAULT_BASE64_ALPHABET);
+
+        if ((yyval.modifier).alphabet == NULL)
+          fail_with_error(ERROR_INSUFFICIENT_MEMORY);
       }
-#line 2737 "libyara/grammar.c"
+#line 2740 "libyara/grammar.c"
     break;
 
   case 53: /* string_modifier: "<base64>" '(' "text string" ')'  */
-#line 842 "libyara/grammar.y"
+#line 845 "libyara/grammar.y"
       {
         int result = ERROR_SUCCESS;
 
@@ -2754,20 +2757,23 @@ yyreduce:
         (yyval.modifier).flags = STRING_FLAGS_BASE64;
         (yyval.modifier).alphabet = (yyvsp[-1].sized_string);
       }
-#line 2758 "libyara/grammar.c"
+#line 2761 "libyara/grammar.c"
     break;
 
   case 54: /* string_modifier: "<base64wide>"  */
-#line 859 "libyara/grammar.y"
+#line 862 "libyara/grammar.y"
       {
         (yyval.modifier).flags = STRING_FLAGS_BASE64_WIDE;
         (yyval.modifier).alphabet = ss_new(DEFAULT_BASE64_ALPHABET);
+
+        if ((yyval.modifier).alphabet == NULL)
+          fail_with_error(ERROR_INSUFFICIENT_MEMORY);
       }
-#line 2767 "libyara/grammar.c"
+#line 2773 "libyara/grammar.c"
     break;
 
   case 55: /* string_modifier: "<base64wide>" '(' "text string" ')'  */
-#line 864 "libyara/grammar.y"
+#line 870 "libyara/grammar.y"
       {
         int result = ERROR_SUCCESS;
 
@@ -2784,17 +2790,17 @@ yyreduce:
         (yyval.modifier).flags = STRING_FLAGS_BASE64_WIDE;
         (yyval.modifier).alphabet = (yyvsp[-1].sized_string);
       }
-#line 2788 "libyara/grammar.c"
-    break;
-
-  case 56: /* regexp_modifiers: %empty  */
-#line 883 "libyara/grammar.y"
-                                          { (yyval.modifier).flags = 0; }
 #line 2794 "libyara/grammar.c"
     break;
 
+  case 56: /* regexp_modifiers: %empty  */
+#line 889 "libyara/grammar.y"
+                                          { (yyval.modifier).flags = 0; }
+#line 2800 "libyara/grammar.c"
+    break;
+
   case 57: /* regexp_modifiers: regexp_modifiers regexp_modifier  */
-#line 885 "libyara/grammar.y"
+#line 891 "libyara/grammar.y"
       {
         if ((yyvsp[-1].modifier).flags & (yyvsp[0].modifier).flags)
         {
@@ -2805,47 +2811,47 @@ yyreduce:
           (yyval.modifier).flags = (yyvsp[-1].modifier).flags | (yyvsp[0].modifier).flags;
         }
       }
-#line 2809 "libyara/grammar.c"
-    break;
-
-  case 58: /* regexp_modifier: "<wide>"  */
-#line 898 "libyara/grammar.y"
-                    { (yyval.modifier).flags = STRING_FLAGS_WIDE; }
 #line 2815 "libyara/grammar.c"
     break;
 
-  case 59: /* regexp_modifier: "<ascii>"  */
-#line 899 "libyara/grammar.y"
-                    { (yyval.modifier).flags = STRING_FLAGS_ASCII; }
+  case 58: /* regexp_modifier: "<wide>"  */
+#line 904 "libyara/grammar.y"
+                    { (yyval.modifier).flags = STRING_FLAGS_WIDE; }
 #line 2821 "libyara/grammar.c"
     break;
 
-  case 60: /* regexp_modifier: "<nocase>"  */
-#line 900 "libyara/grammar.y"
-                    { (yyval.modifier).flags = STRING_FLAGS_NO_CASE; }
+  case 59: /* regexp_modifier: "<ascii>"  */
+#line 905 "libyara/grammar.y"
+                    { (yyval.modifier).flags = STRING_FLAGS_ASCII; }
 #line 2827 "libyara/grammar.c"
     break;
 
-  case 61: /* regexp_modifier: "<fullword>"  */
-#line 901 "libyara/grammar.y"
-                    { (yyval.modifier).flags = STRING_FLAGS_FULL_WORD; }
+  case 60: /* regexp_modifier: "<nocase>"  */
+#line 906 "libyara/grammar.y"
+                    { (yyval.modifier).flags = STRING_FLAGS_NO_CASE; }
 #line 2833 "libyara/grammar.c"
     break;
 
-  case 62: /* regexp_modifier: "<private>"  */
-#line 902 "libyara/grammar.y"
-                    { (yyval.modifier).flags = STRING_FLAGS_PRIVATE; }
+  case 61: /* regexp_modifier: "<fullword>"  */
+#line 907 "libyara/grammar.y"
+                    { (yyval.modifier).flags = STRING_FLAGS_FULL_WORD; }
 #line 2839 "libyara/grammar.c"
     break;
 
-  case 63: /* hex_modifiers: %empty  */
-#line 906 "libyara/grammar.y"
-                                          { (yyval.modifier).flags = 0; }
+  case 62: /* regexp_modifier: "<private>"  */
+#line 908 "libyara/grammar.y"
+                    { (yyval.modifier).flags = STRING_FLAGS_PRIVATE; }
 #line 2845 "libyara/grammar.c"
     break;
 
+  case 63: /* hex_modifiers: %empty  */
+#line 912 "libyara/grammar.y"
+                                          { (yyval.modifier).flags = 0; }
+#line 2851 "libyara/grammar.c"
+    break;
+
   case 64: /* hex_modifiers: hex_modifiers hex_modifier  */
-#line 908 "libyara/grammar.y"
+#line 914 "libyara/grammar.y"
       {
         if ((yyvsp[-1].modifier).flags & (yyvsp[0].modifier).flags)
         {
@@ -2856,17 +2862,17 @@ yyreduce:
           (yyval.modifier).flags = (yyvsp[-1].modifier).flags | (yyvsp[0].modifier).flags;
         }
       }
-#line 2860 "libyara/grammar.c"
-    break;
-
-  case 65: /* hex_modifier: "<private>"  */
-#line 921 "libyara/grammar.y"
-                    { (yyval.modifier).flags = STRING_FLAGS_PRIVATE; }
 #line 2866 "libyara/grammar.c"
     break;
 
+  case 65: /* hex_modifier: "<private>"  */
+#line 927 "libyara/grammar.y"
+                    { (yyval.modifier).flags = STRING_FLAGS_PRIVATE; }
+#line 2872 "libyara/grammar.c"
+    break;
+
   case 66: /* identifier: "identifier"  */
-#line 926 "libyara/grammar.y"
+#line 932 "libyara/grammar.y"
       {
         YR_EXPRESSION expr;
 
@@ -2962,11 +2968,11 @@ yyreduce:
 
         fail_if_error(result);
       }
-#line 2966 "libyara/grammar.c"
+#line 2972 "libyara/grammar.c"
     break;
 
   case 67: /* identifier: identifier '.' "identifier"  */
-#line 1022 "libyara/grammar.y"
+#line 1028 "libyara/grammar.y"
       {
         int result = ERROR_SUCCESS;
         YR_OBJECT* field = NULL;
@@ -3014,11 +3020,11 @@ yyreduce:
 
         fail_if_error(result);
       }
-#line 3018 "libyara/grammar.c"
+#line 3024 "libyara/grammar.c"
     break;
 
   case 68: /* identifier: identifier '[' primary_expression ']'  */
-#line 1070 "libyara/grammar.y"
+#line 1076 "libyara/grammar.y"
       {
         int result = ERROR_SUCCESS;
         YR_OBJECT_ARRAY* array;
@@ -3078,11 +3084,11 @@ yyreduce:
 
         fail_if_error(result);
       }
-#line 3082 "libyara/grammar.c"
+#line 3088 "libyara/grammar.c"
     break;
 
   case 69: /* identifier: identifier '(' arguments ')'  */
-#line 1131 "libyara/grammar.y"
+#line 1137 "libyara/grammar.y"
       {
         YR_ARENA_REF ref = YR_ARENA_NULL_REF;
         int result = ERROR_SUCCESS;
@@ -3123,23 +3129,23 @@ yyreduce:
 
         fail_if_error(result);
       }
-#line 3127 "libyara/grammar.c"
-    break;
-
-  case 70: /* arguments: %empty  */
-#line 1175 "libyara/grammar.y"
-                      { (yyval.c_string) = yr_strdup(""); }
 #line 3133 "libyara/grammar.c"
     break;
 
-  case 71: /* arguments: arguments_list  */
-#line 1176 "libyara/grammar.y"
-                      { (yyval.c_string) = (yyvsp[0].c_string); }
+  case 70: /* arguments: %empty  */
+#line 1181 "libyara/grammar.y"
+                      { (yyval.c_string) = yr_strdup(""); }
 #line 3139 "libyara/grammar.c"
     break;
 
+  case 71: /* arguments: arguments_list  */
+#line 1182 "libyara/grammar.y"
+                      { (yyval.c_string) = (yyvsp[0].c_string); }
+#line 3145 "libyara/grammar.c"
+    break;
+
   case 72: /* arguments_list: expression  */
-#line 1181 "libyara/grammar.y"
+#line 1187 "libyara/grammar.y"
       {
         (yyval.c_string) = (char*) yr_malloc(YR_MAX_FUNCTION_ARGS + 1);
 
@@ -3174,11 +3180,11 @@ yyreduce:
             assert(compiler->last_error != ERROR_SUCCESS);
         }
       }
-#line 3178 "libyara/grammar.c"
+#line 3184 "libyara/grammar.c"
     break;
 
   case 73: /* arguments_list: arguments_list ',' expression  */
-#line 1216 "libyara/grammar.y"
+#line 1222 "libyara/grammar.y"
       {
         int result = ERROR_SUCCESS;
 
@@ -3227,11 +3233,11 @@ yyreduce:
 
         (yyval.c_string) = (yyvsp[-2].c_string);
       }
-#line 3231 "libyara/grammar.c"
+#line 3237 "libyara/grammar.c"
     break;
 
   case 74: /* regexp: "regular expression"  */
-#line 1269 "libyara/grammar.y"
+#line 1275 "libyara/grammar.y"
       {
         YR_ARENA_REF re_ref;
         RE_ERROR error;
@@ -3282,11 +3288,11 @@ yyreduce:
 
         (yyval.expression).type = EXPRESSION_TYPE_REGEXP;
       }
-#line 3286 "libyara/grammar.c"
+#line 3292 "libyara/grammar.c"
     break;
 
   case 75: /* boolean_expression: expression  */
-#line 1324 "libyara/grammar.y"
+#line 1330 "libyara/grammar.y"
       {
         if ((yyvsp[0].expression).type == EXPRESSION_TYPE_STRING)
         {
@@ -3314,33 +3320,33 @@ yyreduce:
 
         (yyval.expression).type = EXPRESSION_TYPE_BOOLEAN;
       }
-#line 3318 "libyara/grammar.c"
+#line 3324 "libyara/grammar.c"
     break;
 
   case 76: /* expression: "<true>"  */
-#line 1355 "libyara/grammar.y"
+#line 1361 "libyara/grammar.y"
       {
         fail_if_error(yr_parser_emit_push_const(yyscanner, 1));
 
         (yyval.expression).type = EXPRESSION_TYPE_BOOLEAN;
         (yyval.expression).required_strings.count = 0;
       }
-#line 3329 "libyara/grammar.c"
+#line 3335 "libyara/grammar.c"
     break;
 
   case 77: /* expression: "<false>"  */
-#line 1362 "libyara/grammar.y"
+#line 1368 "libyara/grammar.y"
       {
         fail_if_error(yr_parser_emit_push_const(yyscanner, 0));
 
         (yyval.expression).type = EXPRESSION_TYPE_BOOLEAN;
         (yyval.expression).required_strings.count = 0;
       }
-#line 3340 "libyara/grammar.c"
+#line 3346 "libyara/grammar.c"
     break;
 
   case 78: /* expression: primary_expression "<matches>" regexp  */
-#line 1369 "libyara/grammar.y"
+#line 1375 "libyara/grammar.y"
       {
         check_type((yyvsp[-2].expression), EXPRESSION_TYPE_STRING, "matches");
         check_type((yyvsp[0].expression), EXPRESSION_TYPE_REGEXP, "matches");
@@ -3353,11 +3359,11 @@ yyreduce:
         (yyval.expression).type = EXPRESSION_TYPE_BOOLEAN;
         (yyval.expression).required_strings.count = 0;
       }
-#line 3357 "libyara/grammar.c"
+#line 3363 "libyara/grammar.c"
     break;
 
   case 79: /* expression: primary_expression "<contains>" primary_expression  */
-#line 1382 "libyara/grammar.y"
+#line 1388 "libyara/grammar.y"
       {
         check_type((yyvsp[-2].expression), EXPRESSION_TYPE_STRING, "contains");
         check_type((yyvsp[0].expression), EXPRESSION_TYPE_STRING, "contains");
@@ -3368,11 +3374,11 @@ yyreduce:
         (yyval.expression).type = EXPRESSION_TYPE_BOOLEAN;
         (yyval.expression).required_strings.count = 0;
       }
-#line 3372 "libyara/grammar.c"
+#line 3378 "libyara/grammar.c"
     break;
 
   case 80: /* expression: primary_expression "<icontains>" primary_expression  */
-#line 1393 "libyara/grammar.y"
+#line 1399 "libyara/grammar.y"
       {
         check_type((yyvsp[-2].expression), EXPRESSION_TYPE_STRING, "icontains");
         check_type((yyvsp[0].expression), EXPRESSION_TYPE_STRING, "icontains");
@@ -3383,11 +3389,11 @@ yyreduce:
         (yyval.expression).type = EXPRESSION_TYPE_BOOLEAN;
         (yyval.expression).required_strings.count = 0;
       }
-#line 3387 "libyara/grammar.c"
+#line 3393 "libyara/grammar.c"
     break;
 
   case 81: /* expression: primary_expression "<startswith>" primary_expression  */
-#line 1404 "libyara/grammar.y"
+#line 1410 "libyara/grammar.y"
       {
         check_type((yyvsp[-2].expression), EXPRESSION_TYPE_STRING, "startswith");
         check_type((yyvsp[0].expression), EXPRESSION_TYPE_STRING, "startswith");
@@ -3398,11 +3404,11 @@ yyreduce:
         (yyval.expression).type = EXPRESSION_TYPE_BOOLEAN;
         (yyval.expression).required_strings.count = 0;
       }
-#line 3402 "libyara/grammar.c"
+#line 3408 "libyara/grammar.c"
     break;
 
   case 82: /* expression: primary_expression "<istartswith>" primary_expression  */
-#line 1415 "libyara/grammar.y"
+#line 1421 "libyara/grammar.y"
       {
         check_type((yyvsp[-2].expression), EXPRESSION_TYPE_STRING, "istartswith");
         check_type((yyvsp[0].expression), EXPRESSION_TYPE_STRING, "istartswith");
@@ -3413,11 +3419,11 @@ yyreduce:
         (yyval.expression).type = EXPRESSION_TYPE_BOOLEAN;
         (yyval.expression).required_strings.count = 0;
       }
-#line 3417 "libyara/grammar.c"
+#line 3423 "libyara/grammar.c"
     break;
 
   case 83: /* expression: primary_expression "<endswith>" primary_expression  */
-#line 1426 "libyara/grammar.y"
+#line 1432 "libyara/grammar.y"
       {
         check_type((yyvsp[-2].expression), EXPRESSION_TYPE_STRING, "endswith");
         check_type((yyvsp[0].expression), EXPRESSION_TYPE_STRING, "endswith");
@@ -3428,11 +3434,11 @@ yyreduce:
         (yyval.expression).type = EXPRESSION_TYPE_BOOLEAN;
         (yyval.expression).required_strings.count = 0;
       }
-#line 3432 "libyara/grammar.c"
+#line 3438 "libyara/grammar.c"
     break;
 
   case 84: /* expression: primary_expression "<iendswith>" primary_expression  */
-#line 1437 "libyara/grammar.y"
+#line 1443 "libyara/grammar.y"
       {
         check_type((yyvsp[-2].expression), EXPRESSION_TYPE_STRING, "iendswith");
         check_type((yyvsp[0].expression), EXPRESSION_TYPE_STRING, "iendswith");
@@ -3443,11 +3449,11 @@ yyreduce:
         (yyval.expression).type = EXPRESSION_TYPE_BOOLEAN;
         (yyval.expression).required_strings.count = 0;
       }
-#line 3447 "libyara/grammar.c"
+#line 3453 "libyara/grammar.c"
     break;
 
   case 85: /* expression: primary_expression "<iequals>" primary_expression  */
-#line 1448 "libyara/grammar.y"
+#line 1454 "libyara/grammar.y"
       {
         check_type((yyvsp[-2].expression), EXPRESSION_TYPE_STRING, "iequals");
         check_type((yyvsp[0].expression), EXPRESSION_TYPE_STRING, "iequals");
@@ -3458,11 +3464,11 @@ yyreduce:
         (yyval.expression).type = EXPRESSION_TYPE_BOOLEAN;
         (yyval.expression).required_strings.count = 0;
       }
-#line 3462 "libyara/grammar.c"
+#line 3468 "libyara/grammar.c"
     break;
 
   case 86: /* expression: "string identifier"  */
-#line 1459 "libyara/grammar.y"
+#line 1465 "libyara/grammar.y"
       {
         int result = yr_parser_reduce_string_identifier(
             yyscanner,
@@ -3477,11 +3483,11 @@ yyreduce:
         (yyval.expression).type = EXPRESSION_TYPE_BOOLEAN;
         (yyval.expression).required_strings.count = 1;
       }
-#line 3481 "libyara/grammar.c"
+#line 3487 "libyara/grammar.c"
     break;
 
   case 87: /* expression: "string identifier" "<at>" primary_expression  */
-#line 1474 "libyara/grammar.y"
+#line 1480 "libyara/grammar.y"
       {
         int result;
 
@@ -3497,11 +3503,11 @@ yyreduce:
         (yyval.expression).required_strings.count = 1;
         (yyval.expression).type = EXPRESSION_TYPE_BOOLEAN;
       }
-#line 3501 "libyara/grammar.c"
+#line 3507 "libyara/grammar.c"
     break;
 
   case 88: /* expression: "string identifier" "<in>" range  */
-#line 1490 "libyara/grammar.y"
+#line 1496 "libyara/grammar.y"
       {
         int result = yr_parser_reduce_string_identifier(
             yyscanner, (yyvsp[-2].c_string), OP_FOUND_IN, YR_UNDEFINED);
@@ -3513,11 +3519,11 @@ yyreduce:
         (yyval.expression).required_strings.count = 1;
         (yyval.expression).type = EXPRESSION_TYPE_BOOLEAN;
       }
-#line 3517 "libyara/grammar.c"
+#line 3523 "libyara/grammar.c"
     break;
 
   case 89: /* expression: "<for>" for_expression error  */
-#line 1502 "libyara/grammar.y"
+#line 1508 "libyara/grammar.y"
       {
         // Free all the loop variable identifiers, including the variables for
         // the current loop (represented by loop_index), and set loop_index to
@@ -3534,11 +3540,11 @@ yyreduce:
         compiler->loop_index = -1;
         YYERROR;
       }
-#line 3538 "libyara/grammar.c"
+#line 3544 "libyara/grammar.c"
     break;
 
   case 90: /* $@6: %empty  */
-#line 1576 "libyara/grammar.y"
+#line 1582 "libyara/grammar.y"
       {
         // var_frame is used for accessing local variables used in this loop.
         // All local variables are accessed using var_frame as a reference,
@@ -3576,11 +3582,11 @@ yyreduce:
         fail_if_error(yr_parser_emit_with_arg(
             yyscanner, OP_POP_M, var_frame + 2, NULL, NULL));
       }
-#line 3580 "libyara/grammar.c"
+#line 3586 "libyara/grammar.c"
     break;
 
   case 91: /* $@7: %empty  */
-#line 1614 "libyara/grammar.y"
+#line 1620 "libyara/grammar.y"
       {
         YR_LOOP_CONTEXT* loop_ctx = &compiler->loop[compiler->loop_index];
         YR_FIXUP* fixup;
@@ -3629,11 +3635,11 @@ yyreduce:
 
         loop_ctx->start_ref = loop_start_ref;
       }
-#line 3633 "libyara/grammar.c"
+#line 3639 "libyara/grammar.c"
     break;
 
   case 92: /* expression: "<for>" for_expression $@6 for_iteration ':' $@7 '(' boolean_expression ')'  */
-#line 1663 "libyara/grammar.y"
+#line 1669 "libyara/grammar.y"
       {
         int32_t jmp_offset;
         YR_FIXUP* fixup;
@@ -3714,11 +3720,11 @@ yyreduce:
         (yyval.expression).type = EXPRESSION_TYPE_BOOLEAN;
         (yyval.expression).required_strings.count = 0;
       }
-#line 3718 "libyara/grammar.c"
+#line 3724 "libyara/grammar.c"
     break;
 
   case 93: /* expression: for_expression "<of>" string_set  */
-#line 1744 "libyara/grammar.y"
+#line 1750 "libyara/grammar.y"
       {
         if ((yyvsp[-2].expression).type == EXPRESSION_TYPE_INTEGER && (yyvsp[-2].expression).value.integer > (yyvsp[0].integer))
         {
@@ -3741,11 +3747,11 @@ yyreduce:
 
         (yyval.expression).type = EXPRESSION_TYPE_BOOLEAN;
       }
-#line 3745 "libyara/grammar.c"
+#line 3751 "libyara/grammar.c"
     break;
 
   case 94: /* expression: for_expression "<of>" rule_set  */
-#line 1767 "libyara/grammar.y"
+#line 1773 "libyara/grammar.y"
       {
         if ((yyvsp[-2].expression).type == EXPRESSION_TYPE_INTEGER && (yyvsp[-2].expression).value.integer > (yyvsp[0].integer))
         {
@@ -3757,11 +3763,11 @@ yyreduce:
         (yyval.expression).type = EXPRESSION_TYPE_BOOLEAN;
         (yyval.expression).required_strings.count = 0;
       }
-#line 3761 "libyara/grammar.c"
+#line 3767 "libyara/grammar.c"
     break;
 
   case 95: /* expression: primary_expression '%' "<of>" string_set  */
-#line 1779 "libyara/grammar.y"
+#line 1785 "libyara/grammar.y"
       {
         check_type((yyvsp[-3].expression), EXPRESSION_TYPE_INTEGER, "%");
 
@@ -3789,11 +3795,11 @@ yyreduce:
 
         yr_parser_emit_with_arg(yyscanner, OP_OF_PERCENT, OF_STRING_SET, NULL, NULL);
       }
-#line 3793 "libyara/grammar.c"
+#line 3799 "libyara/grammar.c"
     break;
 
   case 96: /* expression: primary_expression '%' "<of>" rule_set  */
-#line 1807 "libyara/grammar.y"
+#line 1813 "libyara/grammar.y"
       {
         check_type((yyvsp[-3].expression), EXPRESSION_TYPE_INTEGER, "%");
 
@@ -3812,11 +3818,11 @@ yyreduce:
 
         yr_parser_emit_with_arg(yyscanner, OP_OF_PERCENT, OF_RULE_SET, NULL, NULL);
       }
-#line 3816 "libyara/grammar.c"
+#line 3822 "libyara/grammar.c"
     break;
 
   case 97: /* expression: for_expression "<of>" string_set "<in>" range  */
-#line 1826 "libyara/grammar.y"
+#line 1832 "libyara/grammar.y"
       {
         if ((yyvsp[-4].expression).type == EXPRESSION_TYPE_INTEGER && (yyvsp[-4].expression).value.integer > (yyvsp[-2].integer))
         {
@@ -3839,11 +3845,11 @@ yyreduce:
 
         (yyval.expression).type = EXPRESSION_TYPE_BOOLEAN;
       }
-#line 3843 "libyara/grammar.c"
+#line 3849 "libyara/grammar.c"
     break;
 
   case 98: /* expression: for_expression "<of>" string_set "<at>" primary_expression  */
-#line 1849 "libyara/grammar.y"
+#line 1855 "libyara/grammar.y"
       {
         if ((yyvsp[0].expression).type != EXPRESSION_TYPE_INTEGER)
         {
@@ -3891,32 +3897,32 @@ yyreduce:
 
         (yyval.expression).type = EXPRESSION_TYPE_BOOLEAN;
       }
-#line 3895 "libyara/grammar.c"
+#line 3901 "libyara/grammar.c"
     break;
 
   case 99: /* expression: "<not>" boolean_expression  */
-#line 1897 "libyara/grammar.y"
+#line 1903 "libyara/grammar.y"
       {
         yr_parser_emit(yyscanner, OP_NOT, NULL);
 
         (yyval.expression).type = EXPRESSION_TYPE_BOOLEAN;
         (yyval.expression).required_strings.count = 0;
       }
-#line 3906 "libyara/grammar.c"
+#line 3912 "libyara/grammar.c"
     break;
 
   case 100: /* expression: "<defined>" boolean_expression  */
-#line 1904 "libyara/grammar.y"
+#line 1910 "libyara/grammar.y"
       {
         yr_parser_emit(yyscanner, OP_DEFINED, NULL);
         (yyval.expression).type = EXPRESSION_TYPE_BOOLEAN;
         (yyval.expression).required_strings.count = 0;
       }
-#line 3916 "libyara/grammar.c"
+#line 3922 "libyara/grammar.c"
     break;
 
   case 101: /* $@8: %empty  */
-#line 1910 "libyara/grammar.y"
+#line 1916 "libyara/grammar.y"
       {
         YR_FIXUP* fixup;
         YR_ARENA_REF jmp_offset_ref;
@@ -3938,11 +3944,11 @@ yyreduce:
         fixup->next = compiler->fixup_stack_head;
         compiler->fixup_stack_head = fixup;
       }
-#line 3942 "libyara/grammar.c"
+#line 3948 "libyara/grammar.c"
     break;
 
   case 102: /* expression: boolean_expression "<and>" $@8 boolean_expression  */
-#line 1932 "libyara/grammar.y"
+#line 1938 "libyara/grammar.y"
       {
         YR_FIXUP* fixup;
 
@@ -3966,11 +3972,11 @@ yyreduce:
         (yyval.expression).type = EXPRESSION_TYPE_BOOLEAN;
         (yyval.expression).required_strings.count = (yyvsp[0].expression).required_strings.count + (yyvsp[-3].expression).required_strings.count;
       }
-#line 3970 "libyara/grammar.c"
+#line 3976 "libyara/grammar.c"
     break;
 
   case 103: /* $@9: %empty  */
-#line 1956 "libyara/grammar.y"
+#line 1962 "libyara/grammar.y"
       {
         YR_FIXUP* fixup;
         YR_ARENA_REF jmp_offset_ref;
@@ -3991,11 +3997,11 @@ yyreduce:
         fixup->next = compiler->fixup_stack_head;
         compiler->fixup_stack_head = fixup;
       }
-#line 3995 "libyara/grammar.c"
+#line 4001 "libyara/grammar.c"
     break;
 
   case 104: /* expression: boolean_expression "<or>" $@9 boolean_expression  */
-#line 1977 "libyara/grammar.y"
+#line 1983 "libyara/grammar.y"
       {
         YR_FIXUP* fixup;
 
@@ -4025,11 +4031,11 @@ yyreduce:
           (yyval.expression).required_strings.count = (yyvsp[-3].expression).required_strings.count;
         }
       }
-#line 4029 "libyara/grammar.c"
+#line 4035 "libyara/grammar.c"
     break;
 
   case 105: /* expression: primary_expression "<" primary_expression  */
-#line 2007 "libyara/grammar.y"
+#line 2013 "libyara/grammar.y"
       {
         fail_if_error(yr_parser_reduce_operation(
             yyscanner, "<", (yyvsp[-2].expression), (yyvsp[0].expression)));
@@ -4037,11 +4043,11 @@ yyreduce:
         (yyval.expression).type = EXPRESSION_TYPE_BOOLEAN;
         (yyval.expression).required_strings.count = 0;
       }
-#line 4041 "libyara/grammar.c"
+#line 4047 "libyara/grammar.c"
     break;
 
   case 106: /* expression: primary_expression ">" primary_expression  */
-#line 2015 "libyara/grammar.y"
+#line 2021 "libyara/grammar.y"
       {
         fail_if_error(yr_parser_reduce_operation(
             yyscanner, ">", (yyvsp[-2].expression), (yyvsp[0].expression)));
@@ -4049,11 +4055,11 @@ yyreduce:
         (yyval.expression).type = EXPRESSION_TYPE_BOOLEAN;
         (yyval.expression).required_strings.count = 0;
       }
-#line 4053 "libyara/grammar.c"
+#line 4059 "libyara/grammar.c"
     break;
 
   case 107: /* expression: primary_expression "<=" primary_expression  */
-#line 2023 "libyara/grammar.y"
+#line 2029 "libyara/grammar.y"
       {
         fail_if_error(yr_parser_reduce_operation(
             yyscanner, "<=", (yyvsp[-2].expression), (yyvsp[0].expression)));
@@ -4061,11 +4067,11 @@ yyreduce:
         (yyval.expression).type = EXPRESSION_TYPE_BOOLEAN;
         (yyval.expression).required_strings.count = 0;
       }
-#line 4065 "libyara/grammar.c"
+#line 4071 "libyara/grammar.c"
     break;
 
   case 108: /* expression: primary_expression ">=" primary_expression  */
-#line 2031 "libyara/grammar.y"
+#line 2037 "libyara/grammar.y"
       {
         fail_if_error(yr_parser_reduce_operation(
             yyscanner, ">=", (yyvsp[-2].expression), (yyvsp[0].expression)));
@@ -4073,11 +4079,11 @@ yyreduce:
         (yyval.expression).type = EXPRESSION_TYPE_BOOLEAN;
         (yyval.expression).required_strings.count = 0;
       }
-#line 4077 "libyara/grammar.c"
+#line 4083 "libyara/grammar.c"
     break;
 
   case 109: /* expression: primary_expression "==" primary_expression  */
-#line 2039 "libyara/grammar.y"
+#line 2045 "libyara/grammar.y"
       {
         fail_if_error(yr_parser_reduce_operation(
             yyscanner, "==", (yyvsp[-2].expression), (yyvsp[0].expression)));
@@ -4085,11 +4091,11 @@ yyreduce:
         (yyval.expression).type = EXPRESSION_TYPE_BOOLEAN;
         (yyval.expression).required_strings.count = 0;
       }
-#line 4089 "libyara/grammar.c"
+#line 4095 "libyara/grammar.c"
     break;
 
   case 110: /* expression: primary_expression "!=" primary_expression  */
-#line 2047 "libyara/grammar.y"
+#line 2053 "libyara/grammar.y"
       {
         fail_if_error(yr_parser_reduce_operation(
             yyscanner, "!=", (yyvsp[-2].expression), (yyvsp[0].expression)));
@@ -4097,33 +4103,33 @@ yyreduce:
         (yyval.expression).type = EXPRESSION_TYPE_BOOLEAN;
         (yyval.expression).required_strings.count = 0;
       }
-#line 4101 "libyara/grammar.c"
+#line 4107 "libyara/grammar.c"
     break;
 
   case 111: /* expression: primary_expression  */
-#line 2055 "libyara/grammar.y"
+#line 2061 "libyara/grammar.y"
       {
         (yyval.expression) = (yyvsp[0].expression);
       }
-#line 4109 "libyara/grammar.c"
+#line 4115 "libyara/grammar.c"
     break;
 
   case 112: /* expression: '(' expression ')'  */
-#line 2059 "libyara/grammar.y"
+#line 2065 "libyara/grammar.y"
       {
         (yyval.expression) = (yyvsp[-1].expression);
       }
-#line 4117 "libyara/grammar.c"
-    break;
-
-  case 113: /* for_iteration: for_variables "<in>" iterator  */
-#line 2066 "libyara/grammar.y"
-                                  { (yyval.integer) = FOR_ITERATION_ITERATOR; }
 #line 4123 "libyara/grammar.c"
     break;
 
+  case 113: /* for_iteration: for_variables "<in>" iterator  */
+#line 2072 "libyara/grammar.y"
+                                  { (yyval.integer) = FOR_ITERATION_ITERATOR; }
+#line 4129 "libyara/grammar.c"
+    break;
+
   case 114: /* for_iteration: "<of>" string_iterator  */
-#line 2068 "libyara/grammar.y"
+#line 2074 "libyara/grammar.y"
       {
         int var_frame;
         int result = ERROR_SUCCESS;
@@ -4144,11 +4150,11 @@ yyreduce:
 
         (yyval.integer) = FOR_ITERATION_STRING_SET;
       }
-#line 4148 "libyara/grammar.c"
+#line 4154 "libyara/grammar.c"
     break;
 
   case 115: /* for_variables: "identifier"  */
-#line 2093 "libyara/grammar.y"
+#line 2099 "libyara/grammar.y"
       {
         int result = ERROR_SUCCESS;
 
@@ -4168,11 +4174,11 @@ yyreduce:
 
         assert(loop_ctx->vars_count <= YR_MAX_LOOP_VARS);
       }
-#line 4172 "libyara/grammar.c"
+#line 4178 "libyara/grammar.c"
     break;
 
   case 116: /* for_variables: for_variables ',' "identifier"  */
-#line 2113 "libyara/grammar.y"
+#line 2119 "libyara/grammar.y"
       {
         int result = ERROR_SUCCESS;
 
@@ -4197,11 +4203,11 @@ yyreduce:
 
         loop_ctx->vars[loop_ctx->vars_count++].identifier.ptr = (yyvsp[0].c_string);
       }
-#line 4201 "libyara/grammar.c"
+#line 4207 "libyara/grammar.c"
     break;
 
   case 117: /* iterator: identifier  */
-#line 2141 "libyara/grammar.y"
+#line 2147 "libyara/grammar.y"
       {
         YR_LOOP_CONTEXT* loop_ctx = &compiler->loop[compiler->loop_index];
 
@@ -4275,11 +4281,11 @@ yyreduce:
 
         fail_if_error(result);
       }
-#line 4279 "libyara/grammar.c"
+#line 4285 "libyara/grammar.c"
     break;
 
   case 118: /* iterator: set  */
-#line 2215 "libyara/grammar.y"
+#line 2221 "libyara/grammar.y"
       {
         int result = ERROR_SUCCESS;
 
@@ -4307,11 +4313,11 @@ yyreduce:
 
         fail_if_error(result);
       }
-#line 4311 "libyara/grammar.c"
+#line 4317 "libyara/grammar.c"
     break;
 
   case 119: /* set: '(' enumeration ')'  */
-#line 2247 "libyara/grammar.y"
+#line 2253 "libyara/grammar.y"
       {
         // $2.count contains the number of items in the enumeration
         fail_if_error(yr_parser_emit_push_const(yyscanner, (yyvsp[-1].enumeration).count));
@@ -4329,22 +4335,22 @@ yyreduce:
 
         (yyval.enumeration).type = (yyvsp[-1].enumeration).type;
       }
-#line 4333 "libyara/grammar.c"
+#line 4339 "libyara/grammar.c"
     break;
 
   case 120: /* set: range  */
-#line 2265 "libyara/grammar.y"
+#line 2271 "libyara/grammar.y"
       {
         fail_if_error(yr_parser_emit(
             yyscanner, OP_ITER_START_INT_RANGE, NULL));
 
         (yyval.enumeration).type = EXPRESSION_TYPE_INTEGER;
       }
-#line 4344 "libyara/grammar.c"
+#line 4350 "libyara/grammar.c"
     break;
 
   case 121: /* range: '(' primary_expression ".." primary_expression ')'  */
-#line 2276 "libyara/grammar.y"
+#line 2282 "libyara/grammar.y"
       {
         int result = ERROR_SUCCESS;
 
@@ -4383,11 +4389,11 @@ yyreduce:
 
         fail_if_error(result);
       }
-#line 4387 "libyara/grammar.c"
+#line 4393 "libyara/grammar.c"
     break;
 
   case 122: /* enumeration: primary_expression  */
-#line 2319 "libyara/grammar.y"
+#line 2325 "libyara/grammar.y"
       {
         int result = ERROR_SUCCESS;
 
@@ -4403,11 +4409,11 @@ yyreduce:
         (yyval.enumeration).type = (yyvsp[0].expression).type;
         (yyval.enumeration).count = 1;
       }
-#line 4407 "libyara/grammar.c"
+#line 4413 "libyara/grammar.c"
     break;
 
   case 123: /* enumeration: enumeration ',' primary_expression  */
-#line 2335 "libyara/grammar.y"
+#line 2341 "libyara/grammar.y"
       {
         int result = ERROR_SUCCESS;
 
@@ -4423,38 +4429,38 @@ yyreduce:
         (yyval.enumeration).type = (yyvsp[-2].enumeration).type;
         (yyval.enumeration).count = (yyvsp[-2].enumeration).count + 1;
       }
-#line 4427 "libyara/grammar.c"
+#line 4433 "libyara/grammar.c"
     break;
 
   case 124: /* string_iterator: string_set  */
-#line 2355 "libyara/grammar.y"
+#line 2361 "libyara/grammar.y"
       {
         fail_if_error(yr_parser_emit_push_const(yyscanner, (yyvsp[0].integer)));
         fail_if_error(yr_parser_emit(yyscanner, OP_ITER_START_STRING_SET,
             NULL));
       }
-#line 4437 "libyara/grammar.c"
+#line 4443 "libyara/grammar.c"
     break;
 
   case 125: /* $@10: %empty  */
-#line 2364 "libyara/grammar.y"
+#line 2370 "libyara/grammar.y"
       {
         // Push end-of-list marker
         yr_parser_emit_push_const(yyscanner, YR_UNDEFINED);
       }
-#line 4446 "libyara/grammar.c"
+#line 4452 "libyara/grammar.c"
     break;
 
   case 126: /* string_set: '(' $@10 string_enumeration ')'  */
-#line 2369 "libyara/grammar.y"
+#line 2375 "libyara/grammar.y"
       {
         (yyval.integer) = (yyvsp[-1].integer);
       }
-#line 4454 "libyara/grammar.c"
+#line 4460 "libyara/grammar.c"
     break;
 
   case 127: /* string_set: "<them>"  */
-#line 2373 "libyara/grammar.y"
+#line 2379 "libyara/grammar.y"
       {
         fail_if_error(yr_parser_emit_push_const(yyscanner, YR_UNDEFINED));
 
@@ -4464,23 +4470,23 @@ yyreduce:
 
         (yyval.integer) = count;
       }
-#line 4468 "libyara/grammar.c"
-    break;
-
-  case 128: /* string_enumeration: string_enumeration_item  */
-#line 2386 "libyara/grammar.y"
-                              { (yyval.integer) = (yyvsp[0].integer); }
 #line 4474 "libyara/grammar.c"
     break;
 
-  case 129: /* string_enumeration: string_enumeration ',' string_enumeration_item  */
-#line 2387 "libyara/grammar.y"
-                                                     { (yyval.integer) = (yyvsp[-2].integer) + (yyvsp[0].integer); }
+  case 128: /* string_enumeration: string_enumeration_item  */
+#line 2392 "libyara/grammar.y"
+                              { (yyval.integer) = (yyvsp[0].integer); }
 #line 4480 "libyara/grammar.c"
     break;
 
-  case 130: /* string_enumeration_item: "string identifier"  */
+  case 129: /* string_enumeration: string_enumeration ',' string_enumeration_item  */
 #line 2393 "libyara/grammar.y"
+                                                     { (yyval.integer) = (yyvsp[-2].integer) + (yyvsp[0].integer); }
+#line 4486 "libyara/grammar.c"
+    break;
+
+  case 130: /* string_enumeration_item: "string identifier"  */
+#line 2399 "libyara/grammar.y"
       {
         int count = 0;
         int result = yr_parser_emit_pushes_for_strings(yyscanner, (yyvsp[0].c_string), &count);
@@ -4490,11 +4496,11 @@ yyreduce:
 
         (yyval.integer) = count;
       }
-#line 4494 "libyara/grammar.c"
+#line 4500 "libyara/grammar.c"
     break;
 
   case 131: /* string_enumeration_item: "string identifier with wildcard"  */
-#line 2403 "libyara/grammar.y"
+#line 2409 "libyara/grammar.y"
       {
         int count = 0;
         int result = yr_parser_emit_pushes_for_strings(yyscanner, (yyvsp[0].c_string), &count);
@@ -4504,40 +4510,40 @@ yyreduce:
 
         (yyval.integer) = count;
       }
-#line 4508 "libyara/grammar.c"
+#line 4514 "libyara/grammar.c"
     break;
 
   case 132: /* $@11: %empty  */
-#line 2417 "libyara/grammar.y"
+#line 2423 "libyara/grammar.y"
       {
         // Push end-of-list marker
         yr_parser_emit_push_const(yyscanner, YR_UNDEFINED);
       }
-#line 4517 "libyara/grammar.c"
+#line 4523 "libyara/grammar.c"
     break;
 
   case 133: /* rule_set: '(' $@11 rule_enumeration ')'  */
-#line 2422 "libyara/grammar.y"
+#line 2428 "libyara/grammar.y"
       {
         (yyval.integer) = (yyvsp[-1].integer);
       }
-#line 4525 "libyara/grammar.c"
-    break;
-
-  case 134: /* rule_enumeration: rule_enumeration_item  */
-#line 2429 "libyara/grammar.y"
-                            { (yyval.integer) = (yyvsp[0].integer); }
 #line 4531 "libyara/grammar.c"
     break;
 
-  case 135: /* rule_enumeration: rule_enumeration ',' rule_enumeration_item  */
-#line 2430 "libyara/grammar.y"
-                                                 { (yyval.integer) = (yyvsp[-2].integer) + (yyvsp[0].integer); }
+  case 134: /* rule_enumeration: rule_enumeration_item  */
+#line 2435 "libyara/grammar.y"
+                            { (yyval.integer) = (yyvsp[0].integer); }
 #line 4537 "libyara/grammar.c"
     break;
 
-  case 136: /* rule_enumeration_item: "identifier"  */
+  case 135: /* rule_enumeration: rule_enumeration ',' rule_enumeration_item  */
 #line 2436 "libyara/grammar.y"
+                                                 { (yyval.integer) = (yyvsp[-2].integer) + (yyvsp[0].integer); }
+#line 4543 "libyara/grammar.c"
+    break;
+
+  case 136: /* rule_enumeration_item: "identifier"  */
+#line 2442 "libyara/grammar.y"
       {
         int result = ERROR_SUCCESS;
 
@@ -4570,11 +4576,11 @@ yyreduce:
 
         (yyval.integer) = 1;
       }
-#line 4574 "libyara/grammar.c"
+#line 4580 "libyara/grammar.c"
     break;
 
   case 137: /* rule_enumeration_item: "identifier" '*'  */
-#line 2469 "libyara/grammar.y"
+#line 2475 "libyara/grammar.y"
       {
         int count = 0;
         YR_NAMESPACE* ns = (YR_NAMESPACE*) yr_arena_get_ptr(
@@ -4595,11 +4601,11 @@ yyreduce:
 
         (yyval.integer) = count;
       }
-#line 4599 "libyara/grammar.c"
+#line 4605 "libyara/grammar.c"
     break;
 
   case 138: /* for_expression: primary_expression  */
-#line 2494 "libyara/grammar.y"
+#line 2500 "libyara/grammar.y"
       {
         if ((yyvsp[0].expression).type == EXPRESSION_TYPE_INTEGER && !IS_UNDEFINED((yyvsp[0].expression).value.integer))
         {
@@ -4655,57 +4661,57 @@ yyreduce:
 
         (yyval.expression).value.integer = (yyvsp[0].expression).value.integer;
       }
-#line 4659 "libyara/grammar.c"
+#line 4665 "libyara/grammar.c"
     break;
 
   case 139: /* for_expression: for_quantifier  */
-#line 2550 "libyara/grammar.y"
+#line 2556 "libyara/grammar.y"
       {
         (yyval.expression).value.integer = (yyvsp[0].expression).value.integer;
       }
-#line 4667 "libyara/grammar.c"
+#line 4673 "libyara/grammar.c"
     break;
 
   case 140: /* for_quantifier: "<all>"  */
-#line 2557 "libyara/grammar.y"
+#line 2563 "libyara/grammar.y"
       {
         yr_parser_emit_push_const(yyscanner, YR_UNDEFINED);
         (yyval.expression).type = EXPRESSION_TYPE_QUANTIFIER;
         (yyval.expression).value.integer = FOR_EXPRESSION_ALL;
      }
-#line 4677 "libyara/grammar.c"
+#line 4683 "libyara/grammar.c"
     break;
 
   case 141: /* for_quantifier: "<any>"  */
-#line 2563 "libyara/grammar.y"
+#line 2569 "libyara/grammar.y"
       {
         yr_parser_emit_push_const(yyscanner, 1);
         (yyval.expression).type = EXPRESSION_TYPE_QUANTIFIER;
         (yyval.expression).value.integer = FOR_EXPRESSION_ANY;
       }
-#line 4687 "libyara/grammar.c"
+#line 4693 "libyara/grammar.c"
     break;
 
   case 142: /* for_quantifier: "<none>"  */
-#line 2569 "libyara/grammar.y"
+#line 2575 "libyara/grammar.y"
       {
         yr_parser_emit_push_const(yyscanner, 0);
         (yyval.expression).type = EXPRESSION_TYPE_QUANTIFIER;
         (yyval.expression).value.integer = FOR_EXPRESSION_NONE;
       }
-#line 4697 "libyara/grammar.c"
+#line 4703 "libyara/grammar.c"
     break;
 
   case 143: /* primary_expression: '(' primary_expression ')'  */
-#line 2579 "libyara/grammar.y"
+#line 2585 "libyara/grammar.y"
       {
         (yyval.expression) = (yyvsp[-1].expression);
       }
-#line 4705 "libyara/grammar.c"
+#line 4711 "libyara/grammar.c"
     break;
 
   case 144: /* primary_expression: "<filesize>"  */
-#line 2583 "libyara/grammar.y"
+#line 2589 "libyara/grammar.y"
       {
         fail_if_error(yr_parser_emit(
             yyscanner, OP_FILESIZE, NULL));
@@ -4713,11 +4719,11 @@ yyreduce:
         (yyval.expression).type = EXPRESSION_TYPE_INTEGER;
         (yyval.expression).value.integer = YR_UNDEFINED;
       }
-#line 4717 "libyara/grammar.c"
+#line 4723 "libyara/grammar.c"
     break;
 
   case 145: /* primary_expression: "<entrypoint>"  */
-#line 2591 "libyara/grammar.y"
+#line 2597 "libyara/grammar.y"
       {
         yywarning(yyscanner,
             "using deprecated \"entrypoint\" keyword. Use the \"entry_point\" "
@@ -4729,11 +4735,11 @@ yyreduce:
         (yyval.expression).type = EXPRESSION_TYPE_INTEGER;
         (yyval.expression).value.integer = YR_UNDEFINED;
       }
-#line 4733 "libyara/grammar.c"
+#line 4739 "libyara/grammar.c"
     break;
 
   case 146: /* primary_expression: "integer function" '(' primary_expression ')'  */
-#line 2603 "libyara/grammar.y"
+#line 2609 "libyara/grammar.y"
       {
         check_type((yyvsp[-1].expression), EXPRESSION_TYPE_INTEGER, "intXXXX or uintXXXX");
 
@@ -4747,33 +4753,33 @@ yyreduce:
         (yyval.expression).type = EXPRESSION_TYPE_INTEGER;
         (yyval.expression).value.integer = YR_UNDEFINED;
       }
-#line 4751 "libyara/grammar.c"
+#line 4757 "libyara/grammar.c"
     break;
 
   case 147: /* primary_expression: "integer number"  */
-#line 2617 "libyara/grammar.y"
+#line 2623 "libyara/grammar.y"
       {
         fail_if_error(yr_parser_emit_push_const(yyscanner, (yyvsp[0].integer)));
 
         (yyval.expression).type = EXPRESSION_TYPE_INTEGER;
         (yyval.expression).value.integer = (yyvsp[0].integer);
       }
-#line 4762 "libyara/grammar.c"
+#line 4768 "libyara/grammar.c"
     break;
 
   case 148: /* primary_expression: "floating point number"  */
-#line 2624 "libyara/grammar.y"
+#line 2630 "libyara/grammar.y"
       {
         fail_if_error(yr_parser_emit_with_arg_double(
             yyscanner, OP_PUSH, (yyvsp[0].double_), NULL, NULL));
 
         (yyval.expression).type = EXPRESSION_TYPE_FLOAT;
       }
-#line 4773 "libyara/grammar.c"
+#line 4779 "libyara/grammar.c"
     break;
 
   case 149: /* primary_expression: "text string"  */
-#line 2631 "libyara/grammar.y"
+#line 2637 "libyara/grammar.y"
       {
         YR_ARENA_REF ref;
 
@@ -4798,11 +4804,11 @@ yyreduce:
         (yyval.expression).type = EXPRESSION_TYPE_STRING;
         (yyval.expression).value.sized_string_ref = ref;
       }
-#line 4802 "libyara/grammar.c"
+#line 4808 "libyara/grammar.c"
     break;
 
   case 150: /* primary_expression: "string count" "<in>" range  */
-#line 2656 "libyara/grammar.y"
+#line 2662 "libyara/grammar.y"
       {
         int result = yr_parser_reduce_string_identifier(
             yyscanner, (yyvsp[-2].c_string), OP_COUNT_IN, YR_UNDEFINED);
@@ -4814,11 +4820,11 @@ yyreduce:
         (yyval.expression).type = EXPRESSION_TYPE_INTEGER;
         (yyval.expression).value.integer = YR_UNDEFINED;
       }
-#line 4818 "libyara/grammar.c"
+#line 4824 "libyara/grammar.c"
     break;
 
   case 151: /* primary_expression: "string count"  */
-#line 2668 "libyara/grammar.y"
+#line 2674 "libyara/grammar.y"
       {
         int result = yr_parser_reduce_string_identifier(
             yyscanner, (yyvsp[0].c_string), OP_COUNT, YR_UNDEFINED);
@@ -4830,11 +4836,11 @@ yyreduce:
         (yyval.expression).type = EXPRESSION_TYPE_INTEGER;
         (yyval.expression).value.integer = YR_UNDEFINED;
       }
-#line 4834 "libyara/grammar.c"
+#line 4840 "libyara/grammar.c"
     break;
 
   case 152: /* primary_expression: "string offset" '[' primary_expression ']'  */
-#line 2680 "libyara/grammar.y"
+#line 2686 "libyara/grammar.y"
       {
         int result = yr_parser_reduce_string_identifier(
             yyscanner, (yyvsp[-3].c_string), OP_OFFSET, YR_UNDEFINED);
@@ -4846,11 +4852,11 @@ yyreduce:
         (yyval.expression).type = EXPRESSION_TYPE_INTEGER;
         (yyval.expression).value.integer = YR_UNDEFINED;
       }
-#line 4850 "libyara/grammar.c"
+#line 4856 "libyara/grammar.c"
     break;
 
   case 153: /* primary_expression: "string offset"  */
-#line 2692 "libyara/grammar.y"
+#line 2698 "libyara/grammar.y"
       {
         int result = yr_parser_emit_push_const(yyscanner, 1);
 
@@ -4865,11 +4871,11 @@ yyreduce:
         (yyval.expression).type = EXPRESSION_TYPE_INTEGER;
         (yyval.expression).value.integer = YR_UNDEFINED;
       }
-#line 4869 "libyara/grammar.c"
+#line 4875 "libyara/grammar.c"
     break;
 
   case 154: /* primary_expression: "string length" '[' primary_expression ']'  */
-#line 2707 "libyara/grammar.y"
+#line 2713 "libyara/grammar.y"
       {
         int result = yr_parser_reduce_string_identifier(
             yyscanner, (yyvsp[-3].c_string), OP_LENGTH, YR_UNDEFINED);
@@ -4881,11 +4887,11 @@ yyreduce:
         (yyval.expression).type = EXPRESSION_TYPE_INTEGER;
         (yyval.expression).value.integer = YR_UNDEFINED;
       }
-#line 4885 "libyara/grammar.c"
+#line 4891 "libyara/grammar.c"
     break;
 
   case 155: /* primary_expression: "string length"  */
-#line 2719 "libyara/grammar.y"
+#line 2725 "libyara/grammar.y"
       {
         int result = yr_parser_emit_push_const(yyscanner, 1);
 
@@ -4900,11 +4906,11 @@ yyreduce:
         (yyval.expression).type = EXPRESSION_TYPE_INTEGER;
         (yyval.expression).value.integer = YR_UNDEFINED;
       }
-#line 4904 "libyara/grammar.c"
+#line 4910 "libyara/grammar.c"
     break;
 
   case 156: /* primary_expression: identifier  */
-#line 2734 "libyara/grammar.y"
+#line 2740 "libyara/grammar.y"
       {
         int result = ERROR_SUCCESS;
 
@@ -4953,11 +4959,11 @@ yyreduce:
 
         fail_if_error(result);
       }
-#line 4957 "libyara/grammar.c"
+#line 4963 "libyara/grammar.c"
     break;
 
   case 157: /* primary_expression: '-' primary_expression  */
-#line 2783 "libyara/grammar.y"
+#line 2789 "libyara/grammar.y"
       {
         int result = ERROR_SUCCESS;
 
@@ -4978,11 +4984,11 @@ yyreduce:
 
         fail_if_error(result);
       }
-#line 4982 "libyara/grammar.c"
+#line 4988 "libyara/grammar.c"
     break;
 
   case 158: /* primary_expression: primary_expression '+' primary_expression  */
-#line 2804 "libyara/grammar.y"
+#line 2810 "libyara/grammar.y"
       {
         int result = yr_parser_reduce_operation(
             yyscanner, "+", (yyvsp[-2].expression), (yyvsp[0].expression));
@@ -5017,11 +5023,11 @@ yyreduce:
 
         fail_if_error(result);
       }
-#line 5021 "libyara/grammar.c"
+#line 5027 "libyara/grammar.c"
     break;
 
   case 159: /* primary_expression: primary_expression '-' primary_expression  */
-#line 2839 "libyara/grammar.y"
+#line 2845 "libyara/grammar.y"
       {
         int result = yr_parser_reduce_operation(
             yyscanner, "-", (yyvsp[-2].expression), (yyvsp[0].expression));
@@ -5056,11 +5062,11 @@ yyreduce:
 
         fail_if_error(result);
       }
-#line 5060 "libyara/grammar.c"
+#line 5066 "libyara/grammar.c"
     break;
 
   case 160: /* primary_expression: primary_expression '*' primary_expression  */
-#line 2874 "libyara/grammar.y"
+#line 2880 "libyara/grammar.y"
       {
         int result = yr_parser_reduce_operation(
             yyscanner, "*", (yyvsp[-2].expression), (yyvsp[0].expression));
@@ -5094,11 +5100,11 @@ yyreduce:
 
         fail_if_error(result);
       }
-#line 5098 "libyara/grammar.c"
+#line 5104 "libyara/grammar.c"
     break;
 
   case 161: /* primary_expression: primary_expression '\\' primary_expression  */
-#line 2908 "libyara/grammar.y"
+#line 2914 "libyara/grammar.y"
       {
         int result = yr_parser_reduce_operation(
             yyscanner, "\\", (yyvsp[-2].expression), (yyvsp[0].expression));
@@ -5123,11 +5129,11 @@ yyreduce:
 
         fail_if_error(result);
       }
-#line 5127 "libyara/grammar.c"
+#line 5133 "libyara/grammar.c"
     break;
 
   case 162: /* primary_expression: primary_expression '%' primary_expression  */
-#line 2933 "libyara/grammar.y"
+#line 2939 "libyara/grammar.y"
       {
         check_type((yyvsp[-2].expression), EXPRESSION_TYPE_INTEGER, "%");
         check_type((yyvsp[0].expression), EXPRESSION_TYPE_INTEGER, "%");
@@ -5144,11 +5150,11 @@ yyreduce:
           fail_if_error(ERROR_DIVISION_BY_ZERO);
         }
       }
-#line 5148 "libyara/grammar.c"
+#line 5154 "libyara/grammar.c"
     break;
 
   case 163: /* primary_expression: primary_expression '^' primary_expression  */
-#line 2950 "libyara/grammar.y"
+#line 2956 "libyara/grammar.y"
       {
         check_type((yyvsp[-2].expression), EXPRESSION_TYPE_INTEGER, "^");
         check_type((yyvsp[0].expression), EXPRESSION_TYPE_INTEGER, "^");
@@ -5158,11 +5164,11 @@ yyreduce:
         (yyval.expression).type = EXPRESSION_TYPE_INTEGER;
         (yyval.expression).value.integer = OPERATION(^, (yyvsp[-2].expression).value.integer, (yyvsp[0].expression).value.integer);
       }
-#line 5162 "libyara/grammar.c"
+#line 5168 "libyara/grammar.c"
     break;
 
   case 164: /* primary_expression: primary_expression '&' primary_expression  */
-#line 2960 "libyara/grammar.y"
+#line 2966 "libyara/grammar.y"
       {
         check_type((yyvsp[-2].expression), EXPRESSION_TYPE_INTEGER, "^");
         check_type((yyvsp[0].expression), EXPRESSION_TYPE_INTEGER, "^");
@@ -5172,11 +5178,11 @@ yyreduce:
         (yyval.expression).type = EXPRESSION_TYPE_INTEGER;
         (yyval.expression).value.integer = OPERATION(&, (yyvsp[-2].expression).value.integer, (yyvsp[0].expression).value.integer);
       }
-#line 5176 "libyara/grammar.c"
+#line 5182 "libyara/grammar.c"
     break;
 
   case 165: /* primary_expression: primary_expression '|' primary_expression  */
-#line 2970 "libyara/grammar.y"
+#line 2976 "libyara/grammar.y"
       {
         check_type((yyvsp[-2].expression), EXPRESSION_TYPE_INTEGER, "|");
         check_type((yyvsp[0].expression), EXPRESSION_TYPE_INTEGER, "|");
@@ -5186,11 +5192,11 @@ yyreduce:
         (yyval.expression).type = EXPRESSION_TYPE_INTEGER;
         (yyval.expression).value.integer = OPERATION(|, (yyvsp[-2].expression).value.integer, (yyvsp[0].expression).value.integer);
       }
-#line 5190 "libyara/grammar.c"
+#line 5196 "libyara/grammar.c"
     break;
 
   case 166: /* primary_expression: '~' primary_expression  */
-#line 2980 "libyara/grammar.y"
+#line 2986 "libyara/grammar.y"
       {
         check_type((yyvsp[0].expression), EXPRESSION_TYPE_INTEGER, "~");
 
@@ -5200,11 +5206,11 @@ yyreduce:
         (yyval.expression).value.integer = ((yyvsp[0].expression).value.integer == YR_UNDEFINED) ?
             YR_UNDEFINED : ~((yyvsp[0].expression).value.integer);
       }
-#line 5204 "libyara/grammar.c"
+#line 5210 "libyara/grammar.c"
     break;
 
   case 167: /* primary_expression: primary_expression "<<" primary_expression  */
-#line 2990 "libyara/grammar.y"
+#line 2996 "libyara/grammar.y"
       {
         int result;
 
@@ -5224,11 +5230,11 @@ yyreduce:
 
         fail_if_error(result);
       }
-#line 5228 "libyara/grammar.c"
+#line 5234 "libyara/grammar.c"
     break;
 
   case 168: /* primary_expression: primary_expression ">>" primary_expression  */
-#line 3010 "libyara/grammar.y"
+#line 3016 "libyara/grammar.y"
       {
         int result;
 
@@ -5248,19 +5254,19 @@ yyreduce:
 
         fail_if_error(result);
       }
-#line 5252 "libyara/grammar.c"
+#line 5258 "libyara/grammar.c"
     break;
 
   case 169: /* primary_expression: regexp  */
-#line 3030 "libyara/grammar.y"
+#line 3036 "libyara/grammar.y"
       {
         (yyval.expression) = (yyvsp[0].expression);
       }
-#line 5260 "libyara/grammar.c"
+#line 5266 "libyara/grammar.c"
     break;
 
 
-#line 5264 "libyara/grammar.c"
+#line 5270 "libyara/grammar.c"
 
       default: break;
     }
@@ -5484,5 +5490,5 @@ yyreturnlab:
   return yyresult;
 }
 
-#line 3035 "libyara/grammar.y"
+#line 3041 "libyara/grammar.y"
 
